@@ -27,6 +27,10 @@ TARGETS = [
     ('polymath/matrix.py', 'Matrix', ['__ifloordiv__', '__imod__']),
     ('polymath/matrix3.py', 'Matrix3', ['__imul__']),
 ]
+NOT_POLYMATH = {'np', 'numbers', 'warnings', 'sys', 'math'}
+BUILTINS = {'isinstance', 'len', 'tuple', 'list', 'set', 'dict', 'range', 'type', 'str', 'bool', 'int', 'float',
+            'enumerate', 'zip', 'any', 'all', 'max', 'min', 'sorted', 'repr', 'hasattr', 'getattr', 'slice', 'abs',
+            'IndexError', 'ValueError', 'TypeError', 'setattr', 'delattr', 'reversed', 'sum', 'id', 'iter', 'next'}
 OPTIONAL = {'_require_compatible_deriv', '_require_broadcast_into', '_require_assignable'}   # introduced by fix: commits
 
 
@@ -144,7 +148,14 @@ class Tr:
                     ev.append(('atom', ('write', '__dict__')))
                 elif isinstance(f, ast.Attribute) and isinstance(f.value, ast.Attribute) and f.value.attr == '_cache_':
                     continue
-                elif isinstance(f, ast.Attribute) and isinstance(f.value, ast.Name) and f.value.id in ('self', 'Qube'):
+                elif isinstance(f, ast.Attribute):
+                    root = f.value
+                    while isinstance(root, (ast.Attribute, ast.Subscript, ast.Call)):
+                        root = root.func if isinstance(root, ast.Call) else root.value
+                    if isinstance(root, ast.Name) and root.id in NOT_POLYMATH:
+                        continue                      # NumPy / stdlib: part of the kernel contract, not of polymath
+                    ev.append(('atom', ('call', name)))
+                elif isinstance(f, ast.Name) and name not in BUILTINS:
                     ev.append(('atom', ('call', name)))
         return ev
 
@@ -249,7 +260,7 @@ def regen():
     os.makedirs(os.path.dirname(path), exist_ok=True)
     if not os.path.exists(path) or open(path).read() != text:
         open(path, 'w').write(text)
-    return {'obligations': 2 * len(defs) + 2, 'functions': [l for l, _ in defs], 'missing': missing,
+    return {'obligations': 3 * len(defs) + 2, 'functions': [l for l, _ in defs], 'missing': missing,
             'raise_helpers': helpers}
 
 
